@@ -82,6 +82,10 @@ func C01(c *core.Ctx) {
 		{Kind: "pub", Client: "B", Topic: "a/b", QoS: 1, ID: 37, Payload: "dup-first-seen", Dup: true},
 		// one UNSUBSCRIBE with several filters, held ones last
 		{Kind: "unsub", Client: "A", ID: 19, Filters: []string{"q/1", "q/2", "q/3", "a/+", "#"}},
+		// SUBSCRIBEs the broker refuses (0x80) whose filters share their first levels with filters
+		// that are held, by the same and by another client: nobody's subscription is disturbed
+		sub("B", 25, "a/#/x", 1), sub("A", 18, "a/+bad", 1),
+		{Kind: "sub", Client: "B", ID: 26, Filters: []string{"a/b/c#", "a/c"}, QoSs: []byte{1, 1}},
 	}
 	sd := 3
 	if c.Thorough() {
